@@ -86,23 +86,115 @@ Qed.
 Lemma items_cost bs : seg_cost (SB bs) = S (items bs).
 Proof. reflexivity. Qed.
 
-Lemma segment_roundtrip sg (r : str) o b fuel :
-  seg_ok sg = true -> (seg_cost sg <= fuel)%nat ->
-  p_segment fuel true (mkSt (print_seg sg ++ r) o b) =
+Lemma hsp_naked_mid c : is_hsp c = true -> naked_mid c = true.
+Proof.
+  unfold is_hsp, Units.is_hsp. intro H. apply orb_true_iff in H as [H|H]; apply N.eqb_eq in H; subst; reflexivity.
+Qed.
+
+(** ** Naked chunks *)
+Lemma naked_tail_stop : forall r : str, naked_stopb r = true -> naked_tail r = ([], r).
+Proof.
+  induction r as [|c t IH]; intro H; [reflexivity|]. cbn [naked_tail]. unfold naked_stopb in H.
+  destruct (naked_mid c) eqn:Em; [|reflexivity].
+  destruct (is_ws c) eqn:Ew.
+  - assert (N : nkws c = true) by (unfold nkws; rewrite Ew, Em; reflexivity).
+    rewrite (span_cons_true nkws c t N) in H. cbn [snd] in H. rewrite (IH H). reflexivity.
+  - assert (N : nkws c = false) by (unfold nkws; rewrite Ew; reflexivity).
+    rewrite (span_cons_false nkws c t N) in H. cbn [snd stopsb] in H. rewrite Em in H. discriminate H.
+Qed.
+
+Lemma naked_tail_run (Y : str) (e : N) (R : str) :
+  forallb naked_mid Y = true -> naked_mid e = true -> is_ws e = false -> naked_stopb R = true ->
+  naked_tail (Y ++ e :: R) = (Y ++ [e], R).
+Proof.
+  intros HY He Hews HR. induction Y as [|c Y IH]; cbn [app naked_tail].
+  - rewrite He, (naked_tail_stop R HR), Hews. reflexivity.
+  - cbn [forallb] in HY. apply andb_true_iff in HY as [Hc HY]. rewrite Hc, (IH HY).
+    destruct (Y ++ [e]) eqn:E; [destruct Y; discriminate | reflexivity].
+Qed.
+
+Definition naked_text (A : str) : Prop :=
+  exists c0 A', A = c0 :: A' /\ naked_edge c0 = true /\ forallb naked_mid A' = true /\ is_ws (last A 0) = false.
+
+Lemma naked_textb_text (A : str) : naked_textb A = true -> naked_text A.
+Proof.
+  unfold naked_textb. destruct A as [|c0 A']; [discriminate|]. intro H. apply andb_true_iff in H as [H Hl].
+  apply andb_true_iff in H as [He Hm]. apply negb_true_iff in Hl. exists c0, A'. repeat split; assumption.
+Qed.
+
+Lemma sc_naked_stop (A R : str) : naked_text A -> naked_stopb R = true -> sc_naked (A ++ R) = Some (A, R).
+Proof.
+  intros [c0 [A' [-> [Hc0 [Hmid Hlast]]]]] HR. cbn [app sc_naked]. rewrite Hc0.
+  destruct A' as [|a A''].
+  - cbn [app]. rewrite (naked_tail_stop R HR). reflexivity.
+  - destruct (exists_last (l := a :: A'') ltac:(discriminate)) as [Y [e EY]]. rewrite EY in *.
+    rewrite forallb_app in Hmid. apply andb_true_iff in Hmid as [HY He]. cbn [forallb] in He.
+    apply andb_true_iff in He as [He _].
+    assert (Hl : last (c0 :: Y ++ [e]) 0 = e).
+    { change (c0 :: Y ++ [e]) with ((c0 :: Y) ++ [e]). apply last_last. }
+    rewrite Hl in Hlast. rewrite <- app_assoc. cbn [app].
+    rewrite (naked_tail_run Y e R HY He Hlast HR). reflexivity.
+Qed.
+
+Lemma naked_stopb_ws_then (w : str) (d : N) (r : str) : forallb is_ws w = true -> naked_mid d = false ->
+  naked_stopb (w ++ d :: r) = true.
+Proof.
+  intros Hw Hd. unfold naked_stopb. induction w as [|c w IH]; cbn [app].
+  - assert (N : nkws d = false) by (unfold nkws; rewrite Hd, andb_false_r; reflexivity).
+    rewrite (span_cons_false nkws d r N). cbn [snd stopsb]. rewrite Hd. reflexivity.
+  - cbn [forallb] in Hw. apply andb_true_iff in Hw as [Hc Hw]. destruct (nkws c) eqn:N.
+    + rewrite (span_cons_true nkws c _ N). cbn [snd]. exact (IH Hw).
+    + rewrite (span_cons_false nkws c _ N). cbn [snd stopsb]. unfold nkws in N. rewrite Hc in N. cbn [andb] in N.
+      rewrite N. reflexivity.
+Qed.
+
+Lemma naked_stopb_ws_end (w : str) : forallb is_ws w = true -> naked_stopb w = true.
+Proof.
+  intros Hw. unfold naked_stopb. induction w as [|c w IH]; [reflexivity|].
+  cbn [forallb] in Hw. apply andb_true_iff in Hw as [Hc Hw]. destruct (nkws c) eqn:N.
+  - rewrite (span_cons_true nkws c _ N). cbn [snd]. exact (IH Hw).
+  - rewrite (span_cons_false nkws c _ N). cbn [snd stopsb]. unfold nkws in N. rewrite Hc in N. cbn [andb] in N.
+    rewrite N. reflexivity.
+Qed.
+
+Lemma hsp_run_ws (w : str) : forallb is_hsp w = true -> forallb is_ws w = true.
+Proof.
+  induction w as [|c w IH]; [reflexivity|]. cbn [forallb]. intro H. apply andb_true_iff in H as [Hc Hw].
+  rewrite (hsp_is_ws c Hc), (IH Hw). reflexivity.
+Qed.
+
+Definition seg_stop (sg : seg) (r : str) : Prop :=
+  match sg with SN _ => naked_stopb r = true | _ => True end.
+
+Lemma segment_roundtrip sg (r : str) o b fuel braces :
+  seg_ok sg = true -> (seg_cost sg <= fuel)%nat -> seg_stop sg r -> (braces = true \/ static_seg sg = true) ->
+  p_segment fuel braces (mkSt (print_seg sg ++ r) o b) =
   Got (seg_parts sg, seg_first_off sg o) (mkSt r (o + len (print_seg sg)) b).
 Proof.
-  intros Hok Hf. destruct sg as [q ms x | bs]; cbn [print_seg seg_parts seg_ok] in *.
+  intros Hok Hf Hs Hbr. destruct sg as [q ms x | bs | x]; cbn [print_seg seg_parts seg_ok seg_stop] in *.
   - apply quoted_roundtrip. apply orb_true_iff in Hok as [H|H]; apply N.eqb_eq in H; auto.
-  - apply braced_roundtrip; [exact Hok|]. rewrite items_cost in Hf. lia.
+  - destruct Hbr as [-> | Hbr]; [|discriminate Hbr]. apply braced_roundtrip; [exact Hok|]. rewrite items_cost in Hf. lia.
+  - unfold p_segment. cbn [rest]. rewrite (sc_naked_stop x r (naked_textb_text x Hok) Hs). reflexivity.
+Qed.
+
+Definition seg_head (c : N) : Prop := c = 34 \/ c = 39 \/ c = 123 \/ naked_edge c = true.
+
+Lemma seg_head_not_hsp c : seg_head c -> is_hsp c = false.
+Proof.
+  intros [->|[->|[->|H]]]; try reflexivity. destruct (is_hsp c) eqn:E; [|reflexivity].
+  unfold naked_edge in H. rewrite (hsp_is_ws c E), andb_false_r in H. discriminate H.
 Qed.
 
 Lemma print_seg_head sg : seg_ok sg = true ->
-  exists c r, print_seg sg = c :: r /\ (c = 34 \/ c = 39 \/ c = 123).
+  exists c r, print_seg sg = c :: r /\ seg_head c /\ (is_naked sg = false -> c = 34 \/ c = 39 \/ c = 123).
 Proof.
-  destruct sg as [q ms x | bs]; cbn [print_seg seg_ok]; intro H.
+  destruct sg as [q ms x | bs | x]; cbn [print_seg seg_ok is_naked]; intro H.
   - exists q, (print_chars (raw_ok_q q) ms x ++ [q]). split; [reflexivity|].
-    apply orb_true_iff in H as [H|H]; apply N.eqb_eq in H; auto.
-  - exists 123, (print_bparts bs ++ [125]). split; [reflexivity | auto].
+    assert (Q : q = 34 \/ q = 39 \/ q = 123) by (apply orb_true_iff in H as [H|H]; apply N.eqb_eq in H; auto).
+    split; [destruct Q as [->|[->| ->]]; unfold seg_head; auto | intros _; exact Q].
+  - exists 123, (print_bparts bs ++ [125]). split; [reflexivity|]. split; [unfold seg_head; auto | auto].
+  - destruct (naked_textb_text x H) as [c0 [A' [-> [He _]]]]. exists c0, A'. split; [reflexivity|].
+    split; [unfold seg_head; auto | discriminate].
 Qed.
 
 Lemma p_segment_fails (r : str) o b fuel braces : stops seg_start r ->
@@ -115,7 +207,9 @@ Proof.
 Qed.
 
 Lemma name_followb_stops k : name_followb k = true -> stops seg_start (snd (span is_hsp k)).
-Proof. apply stopsb_stops. Qed.
+Proof. unfold name_followb. intro H. apply andb_true_iff in H as [H _]. exact (stopsb_stops _ _ H). Qed.
+Lemma name_followb_naked k : name_followb k = true -> naked_stopb k = true.
+Proof. unfold name_followb. intro H. apply andb_true_iff in H as [_ H]. exact H. Qed.
 
 Lemma span_is_hsp_split (k : str) : exists w r, span is_hsp k = (w, r) /\ k = w ++ r /\ forallb is_hsp w = true.
 Proof.
@@ -149,27 +243,44 @@ Proof.
 Qed.
 
 (** ** Whole names *)
-Lemma p_string_name : forall more first fuel (k : str) o b,
-  seg_ok first = true -> more_ok more = true -> name_followb k = true ->
+Lemma opener_naked_stop (w : str) c (r : str) : forallb is_hsp w = true -> (c = 34 \/ c = 39 \/ c = 123) ->
+  naked_stopb (w ++ c :: r) = true.
+Proof.
+  intros Hw Hc. apply naked_stopb_ws_then; [exact (hsp_run_ws w Hw) | destruct Hc as [->|[->| ->]]; reflexivity].
+Qed.
+
+Definition static_more (more : list (str * seg)) : bool := forallb (fun p => static_seg (snd p)) more.
+
+Lemma p_string_name : forall more first fuel braces (k : str) o b,
+  seg_ok first = true -> more_ok more = true -> adj_ok first more = true -> name_followb k = true ->
+  (braces = true \/ (static_seg first = true /\ static_more more = true)) ->
   (name_cost (mkName first more) <= fuel)%nat ->
-  p_string fuel true (mkSt (print_seg first ++ print_more more ++ k) o b) =
+  p_string fuel braces (mkSt (print_seg first ++ print_more more ++ k) o b) =
   Got (seg_parts first ++ more_parts more, seg_first_off first o)
       (mkSt k (o + len (print_seg first ++ print_more more)) b).
 Proof.
-  induction more as [|[w sg] more IH]; intros first fuel k o b Hf Hm Hk Hc;
+  induction more as [|[w sg] more IH]; intros first fuel braces k o b Hf Hm Ha Hk Hbr Hc;
     unfold name_cost in Hc; cbn [nm_first nm_more fold_right snd] in Hc.
-  - destruct fuel as [|[|f]]; [lia | lia |]. cbn [print_more more_parts app]. rewrite !app_nil_r.
-    rewrite p_string_unfold. rewrite (segment_roundtrip first k o b (S f) Hf) by lia.
-    rewrite (p_string_stops k (o + len (print_seg first)) b f true Hk). reflexivity.
-  - destruct fuel as [|f]; [lia|]. cbn [more_ok forallb fst snd] in Hm.
+  - assert (Hb1 : braces = true \/ static_seg first = true) by (destruct Hbr as [H|[H _]]; auto).
+    destruct fuel as [|[|f]]; [lia | lia |]. cbn [print_more more_parts app]. rewrite !app_nil_r.
+    rewrite p_string_unfold. rewrite (segment_roundtrip first k o b (S f) braces Hf); [ | lia | destruct first; cbn; auto; exact (name_followb_naked k Hk) | exact Hb1].
+    rewrite (p_string_stops k (o + len (print_seg first)) b f braces Hk). reflexivity.
+  - assert (Hb1 : braces = true \/ static_seg first = true) by (destruct Hbr as [H|[H _]]; auto).
+    assert (Hb2 : braces = true \/ (static_seg sg = true /\ static_more more = true)).
+    { destruct Hbr as [H|[_ H]]; [left; exact H | right]. unfold static_more in H. cbn [forallb snd] in H. apply andb_true_iff in H. exact H. }
+    destruct fuel as [|f]; [lia|]. cbn [more_ok forallb fst snd] in Hm.
     apply andb_true_iff in Hm as [Hw Hm]. apply andb_true_iff in Hw as [Hw Hsg].
+    cbn [adj_ok] in Ha. apply andb_true_iff in Ha as [Hadj Ha].
     cbn [print_more more_parts]. repeat rewrite <- app_assoc. rewrite p_string_unfold.
-    rewrite (segment_roundtrip first _ o b f Hf) by lia.
-    destruct (print_seg_head sg Hsg) as [c [r' [Eh Hc3]]].
+    destruct (print_seg_head sg Hsg) as [c [r' [Eh [Hc3 Hop]]]].
     assert (Hstop : stops is_hsp (print_seg sg ++ print_more more ++ k)).
-    { rewrite Eh. cbn [app stops]. destruct Hc3 as [->|[->| ->]]; reflexivity. }
+    { rewrite Eh. cbn [app stops]. exact (seg_head_not_hsp c Hc3). }
+    assert (Hss : seg_stop first (w ++ print_seg sg ++ print_more more ++ k)).
+    { destruct first as [q ms x | bs | x]; cbn [seg_stop]; auto. cbn [is_naked andb] in Hadj.
+      apply negb_true_iff in Hadj. rewrite Eh. cbn [app]. apply opener_naked_stop; [exact Hw | exact (Hop Hadj)]. }
+    rewrite (segment_roundtrip first _ o b f braces Hf ltac:(lia) Hss Hb1).
     rewrite (skip_hsp_run w _ _ _ Hw Hstop). cbn [fst snd].
-    rewrite (IH sg f k _ b Hsg Hm Hk) by (unfold name_cost; cbn [nm_first nm_more]; lia).
+    rewrite (IH sg f braces k _ b Hsg Hm Ha Hk Hb2) by (unfold name_cost; cbn [nm_first nm_more]; lia).
     repeat rewrite <- app_assoc. cbn [app].
     f_equal. f_equal. rewrite !len_app. lia.
 Qed.
@@ -180,85 +291,25 @@ Theorem name_roundtrip nm fuel (k : str) o b :
   Got (name_val nm, name_off nm o) (mkSt k (o + len (print_name nm)) b).
 Proof.
   intros Hok Hk Hc. destruct nm as [first more]. unfold name_ok in Hok. cbn [nm_first nm_more] in Hok.
-  apply andb_true_iff in Hok as [Hf Hm].
+  apply andb_true_iff in Hok as [Hok Ha]. apply andb_true_iff in Hok as [Hf Hm].
   unfold p_name, print_name. cbn [nm_first nm_more]. rewrite <- app_assoc.
-  rewrite (p_string_name more first fuel k o b Hf Hm Hk Hc). reflexivity.
+  rewrite (p_string_name more first fuel true k o b Hf Hm Ha Hk (or_introl eq_refl) Hc). reflexivity.
 Qed.
 
-(** ** Naked prefixes (how a number / amount text is read when a NAME is tried first) *)
-Lemma hsp_naked_mid c : is_hsp c = true -> naked_mid c = true.
+(** A free-form unit (static string). *)
+Theorem static_roundtrip un fuel (k : str) o b :
+  name_ok un = true -> static_name un = true -> name_followb k = true -> (name_cost un <= fuel)%nat ->
+  p_static fuel (mkSt (print_name un ++ k) o b) =
+  Got (parts_text (name_parts un)) (mkSt k (o + len (print_name un)) b).
 Proof.
-  unfold is_hsp, Units.is_hsp. intro H. apply orb_true_iff in H as [H|H]; apply N.eqb_eq in H; subst; reflexivity.
+  intros Hok Hst Hk Hc. destruct un as [first more]. unfold name_ok in Hok. cbn [nm_first nm_more] in Hok.
+  apply andb_true_iff in Hok as [Hok Ha]. apply andb_true_iff in Hok as [Hf Hm].
+  unfold static_name in Hst. cbn [nm_first nm_more] in Hst. apply andb_true_iff in Hst as [Hs1 Hs2].
+  unfold p_static, print_name. cbn [nm_first nm_more]. rewrite <- app_assoc.
+  rewrite (p_string_name more first fuel false k o b Hf Hm Ha Hk (or_intror (conj Hs1 Hs2)) Hc). reflexivity.
 Qed.
 
-Lemma naked_tail_ws (w : str) (d : N) (r : str) : forallb is_hsp w = true -> naked_mid d = false ->
-  naked_tail (w ++ d :: r) = ([], w ++ d :: r).
-Proof.
-  intros Hw Hd. induction w as [|c w IH]; cbn [app naked_tail].
-  - rewrite Hd. reflexivity.
-  - cbn [forallb] in Hw. apply andb_true_iff in Hw as [Hc Hw]. rewrite (hsp_naked_mid c Hc), (IH Hw).
-    rewrite (hsp_is_ws c Hc). reflexivity.
-Qed.
-
-Lemma naked_tail_run (Y : str) (e : N) (w : str) (d : N) (r : str) :
-  forallb naked_mid Y = true -> naked_mid e = true -> is_ws e = false ->
-  forallb is_hsp w = true -> naked_mid d = false ->
-  naked_tail (Y ++ e :: w ++ d :: r) = (Y ++ [e], w ++ d :: r).
-Proof.
-  intros HY He Hews Hw Hd. induction Y as [|c Y IH]; cbn [app naked_tail].
-  - rewrite He, (naked_tail_ws w d r Hw Hd), Hews. reflexivity.
-  - cbn [forallb] in HY. apply andb_true_iff in HY as [Hc HY]. rewrite Hc, (IH HY).
-    destruct (Y ++ [e]) eqn:E; [destruct Y; discriminate | reflexivity].
-Qed.
-
-(** A text of naked characters that does not end in whitespace, followed by
-    horizontal space and a character that cannot continue a naked string, is
-    read as one naked string. *)
-Definition naked_text (A : str) : Prop :=
-  exists c0 A', A = c0 :: A' /\ naked_edge c0 = true /\ forallb naked_mid A' = true /\ is_ws (last A 0) = false.
-
-Lemma sc_naked_text (A w : str) (d : N) (r : str) :
-  naked_text A -> forallb is_hsp w = true -> naked_mid d = false ->
-  sc_naked (A ++ w ++ d :: r) = Some (A, w ++ d :: r).
-Proof.
-  intros [c0 [A' [-> [Hc0 [Hmid Hlast]]]]] Hw Hd. cbn [app sc_naked]. rewrite Hc0.
-  destruct A' as [|a A''].
-  - cbn [app]. rewrite (naked_tail_ws w d r Hw Hd). reflexivity.
-  - destruct (exists_last (l := a :: A'') ltac:(discriminate)) as [Y [e EY]]. rewrite EY in *.
-    rewrite forallb_app in Hmid. apply andb_true_iff in Hmid as [HY He]. cbn [forallb] in He.
-    apply andb_true_iff in He as [He _].
-    assert (Hl : last (c0 :: Y ++ [e]) 0 = e).
-    { change (c0 :: Y ++ [e]) with ((c0 :: Y) ++ [e]). apply last_last. }
-    rewrite Hl in Hlast. rewrite <- app_assoc. cbn [app].
-    rewrite (naked_tail_run Y e w d r HY He Hlast Hw Hd). reflexivity.
-Qed.
-
-(** ... and a name tried on it continues into the quoted / braced name that follows. *)
-Lemma p_string_naked_name (A w : str) nm fuel (k : str) o b :
-  naked_text A -> forallb is_hsp w = true -> name_ok nm = true -> name_followb k = true ->
-  (S (name_cost nm) <= fuel)%nat ->
-  p_string fuel true (mkSt (A ++ w ++ print_name nm ++ k) o b) =
-  Got (PStr A :: PStr w :: name_parts nm, o) (mkSt k (o + len (A ++ w ++ print_name nm)) b).
-Proof.
-  intros HA Hw Hn Hk Hc. destruct fuel as [|f]; [lia|].
-  destruct nm as [first more]. unfold name_ok in Hn. cbn [nm_first nm_more] in Hn.
-  apply andb_true_iff in Hn as [Hf Hm].
-  destruct (print_seg_head first Hf) as [c [r' [Eh Hc3]]].
-  unfold print_name. cbn [nm_first nm_more]. rewrite <- app_assoc.
-  assert (Hd : naked_mid c = false) by (destruct Hc3 as [->|[->| ->]]; reflexivity).
-  assert (Hn : sc_naked (A ++ w ++ print_seg first ++ print_more more ++ k)
-               = Some (A, w ++ print_seg first ++ print_more more ++ k)).
-  { rewrite Eh. cbn [app]. exact (sc_naked_text A w c _ HA Hw Hd). }
-  assert (Hstop : stops is_hsp (print_seg first ++ print_more more ++ k)).
-  { rewrite Eh. cbn [app stops]. destruct Hc3 as [->|[->| ->]]; reflexivity. }
-  rewrite p_string_unfold. unfold p_segment at 1. cbn [rest]. rewrite Hn. unfold adv. cbn [off bad].
-  rewrite (skip_hsp_run w _ _ _ Hw Hstop). cbn [fst snd].
-  rewrite (p_string_name more first f k _ b Hf Hm Hk) by lia.
-  unfold name_parts. cbn [nm_first nm_more app]. f_equal. f_equal. rewrite !len_app. lia.
-Qed.
-
-(** ... while one that runs into a character that can neither continue nor
-    follow a string (here: "/") stops there. *)
+(** A naked text followed by something that stops it and is no string segment. *)
 Lemma p_string_naked_stop (A w : str) (d : N) fuel (r : str) o b :
   naked_text A -> forallb is_hsp w = true -> naked_mid d = false -> seg_start d = false ->
   (2 <= fuel)%nat ->
@@ -266,7 +317,8 @@ Lemma p_string_naked_stop (A w : str) (d : N) fuel (r : str) o b :
   Got ([PStr A], o) (mkSt (w ++ d :: r) (o + len A) b).
 Proof.
   intros HA Hw Hd Hs Hf. destruct fuel as [|[|f]]; [lia|lia|].
-  rewrite p_string_unfold. unfold p_segment at 1. cbn [rest]. rewrite (sc_naked_text A w d r HA Hw Hd).
+  rewrite p_string_unfold. unfold p_segment at 1. cbn [rest].
+  rewrite (sc_naked_stop A _ HA (naked_stopb_ws_then w d r (hsp_run_ws w Hw) Hd)).
   unfold adv. cbn [off bad].
   assert (Hstop : stops is_hsp (d :: r)).
   { cbn [stops]. destruct (is_hsp d) eqn:E; [|reflexivity]. rewrite (hsp_naked_mid d E) in Hd. discriminate. }
@@ -274,11 +326,64 @@ Proof.
   rewrite (p_segment_fails (d :: r) _ _ f true Hs). reflexivity.
 Qed.
 
-(** After a name: horizontal space then "(" "," "=" ":" or a line end. *)
+(** After a name: horizontal space then "(" "," "=" ":" "}" ... *)
 Lemma name_followb_hsp_then (w : str) c (r : str) : forallb is_hsp w = true -> is_hsp c = false ->
-  seg_start c = false -> name_followb (w ++ c :: r) = true.
+  seg_start c = false -> naked_mid c = false -> name_followb (w ++ c :: r) = true.
 Proof.
-  intros Hw Hch Hc. unfold name_followb. rewrite (span_app is_hsp w (c :: r) Hw Hch). cbn [snd stopsb].
-  rewrite Hc. reflexivity.
+  intros Hw Hch Hc Hm. unfold name_followb. rewrite (span_app is_hsp w (c :: r) Hw Hch). cbn [snd stopsb].
+  rewrite Hc, (naked_stopb_ws_then w c r (hsp_run_ws w Hw) Hm). reflexivity.
 Qed.
 
+(** ** Fuel a name needs is bounded by its length *)
+Open Scope nat_scope.
+Local Notation L := (@List.length N).
+
+Lemma print_char_len raw_ok m c : 1 <= L (print_char raw_ok m c).
+Proof.
+  unfold print_char. destruct m; [| destruct (self_esc c) | destruct (letter_of c)];
+    try (destruct (raw_ok c)); cbn [List.length]; lia.
+Qed.
+
+Lemma print_chars_len raw_ok x : forall ms, L x <= L (print_chars raw_ok ms x).
+Proof.
+  induction x as [|c x IH]; intro ms; cbn [print_chars List.length]; [lia|].
+  rewrite app_length. pose proof (print_char_len raw_ok (hd MRaw ms) c). specialize (IH (tl ms)). lia.
+Qed.
+
+Lemma ntext_len t : 1 <= L (ntext_str t).
+Proof.
+  destruct t; cbn [ntext_str]; repeat (rewrite app_length; cbn [List.length]); try lia.
+  pose proof (dec_N_nonempty n). destruct (dec_N n); [contradiction | cbn [List.length]; lia].
+Qed.
+
+Lemma items_len bs : items bs <= L (print_bparts bs).
+Proof.
+  induction bs as [|b bs IH]; [reflexivity|]. unfold items, print_bparts in *. cbn [fold_right flat_map].
+  rewrite app_length. destruct b as [x ms|t]; cbn [print_bpart].
+  - pose proof (print_chars_len raw_ok_b x ms). lia.
+  - pose proof (ntext_len t). lia.
+Qed.
+
+Lemma seg_cost_len sg : seg_ok sg = true -> S (seg_cost sg) <= L (print_seg sg).
+Proof.
+  intro Hok. destruct sg as [q ms x | bs | x]; cbn [seg_cost print_seg].
+  - unfold print_quoted. cbn [List.length]. rewrite app_length. cbn [List.length]. lia.
+  - change (fold_right _ 0 bs) with (items bs). unfold print_braced. cbn [List.length]. rewrite app_length.
+    cbn [List.length]. pose proof (items_len bs). lia.
+  - cbn [seg_ok] in Hok. destruct x; [discriminate Hok | cbn [List.length]; lia].
+Qed.
+
+Lemma name_cost_len nm : name_ok nm = true -> name_cost nm <= S (L (print_name nm)).
+Proof.
+  intro Hok. destruct nm as [first more]. unfold name_ok in Hok. cbn [nm_first nm_more] in Hok.
+  apply andb_true_iff in Hok as [Hok _]. apply andb_true_iff in Hok as [Hf Hm].
+  unfold name_cost, print_name. cbn [nm_first nm_more]. rewrite app_length.
+  pose proof (seg_cost_len first Hf).
+  assert (H2 : fold_right (fun p n => S (seg_cost (snd p) + n)) 0 more <= L (print_more more)).
+  { clear H Hf. induction more as [|[w sg] more IH]; [reflexivity|]. cbn [fold_right print_more snd].
+    cbn [more_ok forallb fst snd] in Hm. apply andb_true_iff in Hm as [Hw Hm]. apply andb_true_iff in Hw as [_ Hsg].
+    rewrite !app_length. pose proof (seg_cost_len sg Hsg). specialize (IH Hm). lia. }
+  lia.
+Qed.
+
+Close Scope nat_scope.
